@@ -137,7 +137,7 @@ def resolve_ref(world, r):
         sel = r['sel']
         if sel['t'] == 'plate':
             return e.obj, e, sel
-        return e.obj[rsel.to_py(sel)], e, sel
+        return rsel.select(e.obj, sel), e, sel
     if e.kind == 's':
         return e.obj, world.pool[e.meta['plate']], e.meta['sel']
     if e.kind == 'p':
@@ -185,7 +185,7 @@ def execute(world, op):
             out.api = 'Plate.__getitem__'
             plate = world.pool[op['plate']].obj
             out.args = [('plate', plate)]
-            fn = lambda: [plate[rsel.to_py(op['sel'])]]
+            fn = lambda: [rsel.select(plate, op['sel'])]
         elif k == 'transfer':
             src, _, _ = resolve_ref(world, op['src'])
             dst, _, _ = resolve_ref(world, op['dst'])
